@@ -126,6 +126,15 @@ def cases(seed, tier):
             pix = yi.reshape(1, 1, n)
             for nz, zr in ((1, np.zeros((1, n), dtype="int32")), (n, np.arange(n, dtype="int32").reshape(1, n)), (n + 3, np.arange(n, dtype="int32").reshape(1, n))):
                 gu("do_mean", lab + f",nz={nz}", True, lambda b, pix=pix, zr=zr, nz=nz: zonal.do_mean(pix, zr, nz, ND, 255, np.float32), [])
+    # zonal.mean through the accessor: the cube stored time first / last / middle (zone raster (y, x))
+    import pandas as pd
+    import xarray as xr
+
+    zcube = xr.DataArray(np.array([rng.randint(1, 900) for _ in range(5 * 2 * 3)], dtype="int16").reshape(5, 2, 3), dims=("time", "y", "x"),
+                         coords={"time": pd.date_range("2000-01-01", periods=5, freq="10D")}, attrs={"nodata": ND})
+    zras = xr.DataArray(np.array([[0, 1, 1], [2, 0, 255]], dtype="int32"), dims=("y", "x"), attrs={"nodata": 255})
+    for order in (("time", "y", "x"), ("y", "x", "time"), ("y", "time", "x"), ("x", "y", "time")):
+        gu("zonal.mean(accessor)", "dims=" + ",".join(order), True, lambda b, order=order: np.asarray(zcube.transpose(*order).hdc.zonal.mean(zras, [0, 1, 2])), [])
     gu("mk_z_score", "scalars", True, lambda b: np.float64(stats.mk_z_score(7, 11.5)), [])
     gu("mk_p_value", "scalars", True, lambda b: tuple(np.float64(v) for v in stats.mk_p_value(1.3)), [])
     gu("brentq", "scalars", True, lambda b: np.float64(stats.brentq(0.6446262296476516, 1.5041278691778537, 0.5278852360624721)), [])
